@@ -206,6 +206,7 @@ def _removals(ctx, index, funcs):
             # conjuncts of every enclosing test (body arm) that mention the entry and the key
             child, p = node, par.get(node)
             verdict = None
+            extras = []
             while p is not None and p is not f.node and verdict is None:
                 test = None
                 if isinstance(p, ast.If) and child in p.body:
@@ -223,6 +224,9 @@ def _removals(ctx, index, funcs):
                             for c in rel
                         )
                         verdict = (member, rel[0])
+                    else:
+                        # a further condition the removal sits under that says nothing about the key's presence
+                        extras.append(short(test, 70))
                 child, p = p, par.get(p)
             if verdict is None:
                 continue  # unconditional removal (raises when absent) or a removal that depends on something else
@@ -231,7 +235,7 @@ def _removals(ctx, index, funcs):
             ctx.ob(
                 "C14.entry",
                 f,
-                "foreign key {} is removed whenever present".format(k),
+                "foreign key {} is removed whenever present".format(k) + (" [and only if: {}]".format("; ".join(extras)) if extras and not member else ""),
                 member,
                 ""
                 if member
